@@ -353,6 +353,9 @@ func RunC09(k *fw.Case, randomBody func(r *rand.Rand, id int) (string, string, m
 	// rule set: the faulty rule plus three healthy ones at varied priorities
 	rs := &RuleSet{}
 	sal := []int64{int64(r.Intn(5) - 2), 3, 0, -3}
+	if k.Index%7 == 5 {
+		sal[1] = int64(r.Intn(7) - 3) // two-rule set: the healthy rule above, below or level with the faulty one
+	}
 	// one case in three: the faulty rule sets the stop tag before it faults - the fault must surface all the same
 	setStop := k.Index%3 == 1
 	if setStop {
